@@ -525,12 +525,39 @@ pub fn big_message_case(ordered: bool, len: usize) -> Option<Violation> {
     }
 }
 
+/// link-outage scenarios (run with their own deviation bound)
+pub fn outage_scenarios(tier: Tier) -> Vec<LinkScenario<fn() -> Box<dyn Probe>>> {
+    let r = 300u64;
+    let _ = r;
+    let mut out: Vec<LinkScenario<fn() -> Box<dyn Probe>>> = vec![];
+    let chans = |max: usize| vec![Chan::new(0, Kind::Ordered, max, r), Chan::new(1, Kind::Unordered, max, r), Chan::new(2, Kind::Unreliable, max, 0)];
+    // G10 (scale class: link outage): sliced messages on every channel kind partly delivered, then both directions
+    // dead for 3.25 s / 10 s (longer than the 3 s for which sent-packet records and unreliable fragments are kept)
+    for (dir, n) in [(0usize, 13u32), (1, 13), (0, 40)] {
+        if tier == Tier::Quick && n == 40 {
+            continue;
+        }
+        let mut cfg = LinkCfg::base(&format!("ample all kinds 3601, outage of {} ms from tick 2, dir{}", n * 250, dir), chans(100_000), chans(100_000));
+        cfg.dt_ms = vec![250];
+        cfg.horizon = 2;
+        cfg.outage = Some((2, 2 + n));
+        cfg.tail = n + 8 + 13;
+        cfg.drains = vec![Drain::End];
+        cfg.script = vec![Send { tick: 0, dir, ch: 0, len: 3601 }, Send { tick: 0, dir, ch: 1, len: 3601 }, Send { tick: 0, dir, ch: 2, len: 3601 }];
+        out.push(LinkScenario { cfg, probe: probe_ample as fn() -> Box<dyn Probe> });
+    }
+    out
+}
+
 pub fn run(tier: Tier) -> i32 {
     let mut rep = Report::new("C09", tier);
     rep.rule("M2: every schedule with <= d deviations over the horizon of each scenario (ample budgets with varying drain timing; 6000-byte budgets with three send cycles and prompt drains; unreliable fragments with 1 s ticks over a lossy baseline) + fault-free tail; oracle after every library call: accounted bytes of every channel of both endpoints within [0, max] (hook; underflow panics under overflow checks); after update: no unreliable reservation older than 3 s; at the quiescent end: zero accounted everywhere and channel_available_memory = configured maximum; tight scenarios: no ReliableChannelMaxMemoryReached disconnect");
     rep.assume("receive-side accounting is read through the snapshot hook; the M2 'within budget' scenarios keep the sum of reservations (ceil(len/1200)*1200) of messages in flight <= budget and drain every tick; the big-message part measures 'within budget' in message bytes, as can_send_message does");
     let sc = scenarios(tier);
     run_link_scenarios(&mut rep, "m2", &sc, tier.pick(3, 4), tier.pick(120.0, 3000.0));
+    if rep.machinery.is_none() {
+        super::run_link_scenarios_from(&mut rep, "m2-outage", &outage_scenarios(tier), tier.pick(2, 3), tier.pick(120.0, 3000.0), 3000);
+    }
     // scale class: single reliable messages up to the default channel budget (5 MiB)
     {
         let lens: Vec<usize> = tier.pick(vec![1_200_000, 5_241_600, 5_242_879, 5_242_880], vec![76_801, 1_200_000, 1_200_001, 3_000_000, 5_241_599, 5_241_600, 5_241_601, 5_242_000, 5_242_879, 5_242_880]);
@@ -575,6 +602,9 @@ pub fn replay(j: &J) -> i32 {
         let part = j.get("part").and_then(|p| p.as_str()).unwrap_or("");
         let kind = if part.starts_with("soup-unordered") { Kind::Unordered } else { Kind::Ordered };
         return super::soup::replay_soup(j, kind, super::soup::O_MEMORY);
+    }
+    if j.get("scenario_index").and_then(|x| x.as_i()).unwrap_or(0) >= 3000 {
+        return super::replay_link_from(&outage_scenarios(tier), j, 3000);
     }
     replay_link(&scenarios(tier), j)
 }
